@@ -339,6 +339,17 @@ pub fn run(ctx: &Ctx) -> CheckResult {
             if at + 16 > t.bytes.len() {
                 break;
             }
+            // two fields agreeing on an edge value: an empty texture (width or height 0 and size 0)
+            for (tag, offs) in [("w=0,size=0", vec![8usize, 9, 12, 13, 14, 15]), ("h=0,size=0", vec![10, 11, 12, 13, 14, 15]), ("w=h=0,size=0", vec![8, 9, 10, 11, 12, 13, 14, 15])] {
+                let ops: Vec<crate::case::CorruptOp> = offs.iter().map(|o| crate::case::CorruptOp::Set { off: at + o, val: 0 }).chain(std::iter::once(crate::case::CorruptOp::Trunc { at: at + 16 + 0 })).collect();
+                // (the texture data itself is cut off only when the THTX is the last thing in the file)
+                let ops: Vec<crate::case::CorruptOp> = if at + 16 + u32::from_le_bytes([t.bytes[at + 12], t.bytes[at + 13], t.bytes[at + 14], t.bytes[at + 15]]) as usize >= t.bytes.len() { ops } else { ops.into_iter().filter(|o| !matches!(o, crate::case::CorruptOp::Trunc { .. })).collect() };
+                for k in [5usize, 6, 7, 0] {
+                    let mut c = target_case(t, k, &ops, "");
+                    c.name = format!("{} [thtx@{} {}]", c.name, at, tag);
+                    cfg_cases.push(c);
+                }
+            }
             for fmt in [1u8, 3, 5, 7] {
                 if t.bytes[at + 6] == fmt {
                     continue;
